@@ -542,6 +542,11 @@ func trustedBase(eng *Engine) []string {
 			}
 			pre := ""
 			for _, w := range strings.Fields(c.Flags["refined"]) {
+				if wc := eng.cs.ByTarget[w]; wc != nil && wc.Flags["assumepre"] == "" && wc.Flags["ownrequires"] != "" {
+					pre += "; ASSUMED at dynamic calls (precondition of wrapper " + eng.shortName(w) + ", e.g. the implementation's object invariant): " + wc.Flags["ownrequires"]
+				}
+			}
+			for _, w := range strings.Fields(c.Flags["refined"]) {
 				if wc := eng.cs.ByTarget[w]; wc != nil && wc.Flags["assumepre"] != "" {
 					pre = "; ASSUMED at dynamic calls: the receiver's dynamic type is one of these and the preconditions of that implementation's own contract hold (well-formed message object, stated size bounds, destination buffer separate from the message's own buffers)"
 				}
